@@ -56,6 +56,16 @@ class EntPlain(Ent):          # undecorated subclass of a decorated class
 
 
 @symbol
+@dataclass(eq=False, repr=False)
+class EntV(Ent):              # VALUE equality (like the repository's own test classes): distinct objects can be ==
+    def __eq__(self, other):
+        return isinstance(other, EntV) and (self.a, self.b, self.s, self.tags) == (other.a, other.b, other.s, other.tags)
+
+    def __hash__(self):
+        return hash((self.a, self.b, self.s, self.tags))
+
+
+@symbol
 @dataclass(eq=False)
 class Other:                  # unrelated decorated class, for mixed-type domains and joins
     k: int
@@ -123,7 +133,7 @@ class Foreign:                # unrelated undecorated class
         return f"Foreign#{self.k}"
 
 
-CLASSES = {"Ent": Ent, "EntSub": EntSub, "EntPlain": EntPlain, "Other": Other, "Foreign": Foreign, "Made": Made,
+CLASSES = {"Ent": Ent, "EntSub": EntSub, "EntPlain": EntPlain, "EntV": EntV, "Other": Other, "Foreign": Foreign, "Made": Made,
            "Pair": Pair}
 
 
